@@ -228,9 +228,8 @@ TestPlugin* TestRegistry::getPluginByName(const SimpleString& name)
 
 void TestRegistry::removePluginByName(const SimpleString& name)
 {
-    if (firstPlugin_->removePluginByName(name) == firstPlugin_) firstPlugin_ = firstPlugin_->getNext();
     if (firstPlugin_->getName() == name) firstPlugin_ = firstPlugin_->getNext();
-    firstPlugin_->removePluginByName(name);
+    else firstPlugin_->removePluginByName(name);
 }
 
 int TestRegistry::countPlugins()
